@@ -205,17 +205,20 @@ def run_op(case, num):
         return [("state", lib.state_of(T)), ("value", (oracle.frac(err),), None)], [T.ctrlpoints, err]
     if op == "fit_points":
         n = a.n
+        # well-conditioned admissible nodes: between the Greville abscissa and the middle of the support of N_i
+        # (strictly increasing, node i inside supp N_i: Schoenberg-Whitney), so that the float twin is comparable
         nodes = []
-        prev = None
         for i in range(n):
-            lo = a.U[i] if prev is None else max(a.U[i], prev)
-            hi = a.U[i + a.p + 1]
-            prev = lo + (hi - lo) * t
-            nodes.append(prev)
+            mid = (a.U[i] + a.U[i + a.p + 1]) / 2
+            grev = sum(a.U[i + 1:i + a.p + 1], F(0)) / a.p if a.p else mid
+            nodes.append(grev + (mid - grev) * t)
+        gaps = [(nodes[i + 1] - nodes[i], i) for i in range(n - 1)] or [(a.U[-1] - nodes[0], None)]
+        gap, gi = max(gaps, key=lambda x: x[0])
+        extra_node = (nodes[gi] + gap / 2) if gi is not None else (nodes[0] + a.U[-1]) / 2
         # both the square system (interpolation) and one extra node (least squares); (node, point) pairs in any order
         items, raws = [], []
         for extra in (False, True):
-            zs = nodes + ([prev + (a.U[-1] - prev) / 2] if extra else [])
+            zs = nodes + ([extra_node] if extra else [])
             ln = lib.reorder([K(z) for z in zs], case.get("order", "given"))
             data = [A(u) for u in ln]
             T = lib.Curve([K(u) for u in case["A"]["U"]])
